@@ -50,6 +50,7 @@ PROPERTIES = {
             {"group": "events", "module": "c16de", "name": "c16_json_parse_wellformed", "covers": ["last scenario of the range"], "bounds": "8 concrete JSON tag objects (documented names, any field order, an unknown extra field) through the real derive(Deserialize); integers symbolic"},
             {"group": "events", "module": "c16de", "name": "c16_json_parse_degraded", "covers": ["last scenario of the range"], "bounds": "8 concrete objects of a known kind with missing / foreign / contradictory fields: must parse (never error) to Unknown or the documented fallback, never to another kind"},
             {"group": "events", "module": "c16ev", "name": "c16_event_tags_preserved", "timeout": {"quick": 600, "thorough": 1800}, "covers": ["adjacent equal tags", "adjacent process tags with equal pids"], "bounds": "events of 0..=3 tags in 5 kind patterns (process with symbolic pid / keyboard / unknown; equal neighbours included), empty metadata: Event -> SerdeEvent -> Event keeps number, order and content; stub: RandomState::new -> fixed keys (no key is hashed)"},
+            {"group": "events", "module": "c16evjson", "name": "c16_json_event_empty_roundtrip", "covers": ["empty event parsed"], "bounds": "Event level: the tagless, metadata-less event serialises (real derive(Serialize) through SerdeEvent, recording serializer) to an object with NO fields, and that empty object parses back (real derive(Deserialize)) to the empty event (added after seed r4-tagless-event-unparsable)"},
             {"group": "events", "name": "c16_fs_simple_only", "covers": ["remove"], "bounds": "5 coarse kinds"},
         ],
     },
@@ -103,6 +104,7 @@ PROPERTIES = {
         "harnesses": [
             {"group": "supervisor", "name": "c18_exec_argv_exact", "mem_gb": 8, "covers": ["three args, first empty", "argument ' *'", "first argument equals the program", "last argument ends in a newline"], "bounds": "0..=3 args x 3 length patterns (every position sees every length 0..=2) x symbolic bytes x symbolic options"},
             {"group": "supervisor", "name": "c18_exec_argv_unicode", "bounds": "1..=3 args, first = multi-byte/space/quote string"},
+            {"group": "supervisor", "name": "c18_exec_nonutf8_program", "covers": ["program name that is not valid UTF-8"], "bounds": "Program::Exec with a 2-byte program name over 0x01..=0xff (every non-UTF-8 sequence) and one 2-byte ASCII argument; options symbolic (added after seed r4-lossy-program-path)"},
             {"group": "supervisor", "name": "c18_exec_full_1arg", "tiers": ("thorough",), "mem_gb": 10, "bounds": "1 argument, lengths 0..=2 (3 shapes); bytes and options symbolic", "timeout": {"thorough": 3600}},
             {"group": "supervisor", "name": "c18_exec_full_2args", "tiers": ("thorough",), "mem_gb": 10, "bounds": "2 arguments, all 9 length combinations; bytes and options symbolic", "timeout": {"thorough": 3600}},
             {"group": "supervisor", "name": "c18_exec_full_3args_len0", "tiers": ("thorough",), "mem_gb": 10, "bounds": "3 arguments, first empty, 9 length combinations; bytes and options symbolic", "timeout": {"thorough": 3600}},
@@ -116,6 +118,7 @@ PROPERTIES = {
              "bounds": "as c18_shell_no_progopt with a 2-byte Cow::Owned program option (symbolic bytes)"},
             {"group": "shell", "module": "c18shell", "name": "c18_shell_order_one_of_each", "covers": ["command 'a b'"],
              "bounds": "one shape: 1 option, borrowed program option, 3-byte command, 1 extra arg; all bytes and spawn options symbolic (small enough that an ordering change is decided rather than running out of memory)"},
+            {"group": "shell", "module": "c18shell", "name": "c18_shell_nonutf8_prog_and_progopt", "covers": ["shell program and program option that are not valid UTF-8"], "bounds": "Program::Shell with a 2-byte shell program and a 2-byte owned program option over 0x01..=0xff (non-UTF-8 included), one ASCII option, 2-byte command"},
             {"group": "shell", "module": "c18shell", "name": "c18_shell_new_helper", "covers": ["Shell::new with two extra arguments"],
              "bounds": "Shell::new(name): no options, program option -c; 0..=2 extra args"},
             {"group": "shell", "module": "c18shell", "name": "c18_shell_lens_b_no_progopt", "tiers": ("thorough",), "mem_gb": 5, "covers": ["empty command string before two extra arguments"], "bounds": "second length pattern: options (0,2), empty command, args (1,2); 9 shapes"},
@@ -184,16 +187,21 @@ PROPERTIES = {
         ],
     },
     "C15": {
-        "bounds": "the body of error_hook's loop (ErrorHook::new, handler.call, ErrorHook::handle_crit) for one runtime error, 9 RuntimeError variants without io/notify payloads (incl. External) (signal numbers and message bytes symbolic) x handler behaviours {ignore, elevate, critical(Exit), critical(other), move then critical, keep the hook alive}; two successive errors in thorough",
-        "outside": "the async delivery loops (error channel, worker / fs worker send sites), RuntimeError variants carrying io::Error / notify::Error, the main task's reaction to the returned critical error, a hook kept alive and made critical later (measured OOM)",
-        "trusted": ["Kani 0.68 / CBMC 6.11 / CaDiCaL", "models/tracing no-op macros", "hook watchexec::verif::{hook_new, hook_crit_cell, hook_handle_crit} (cfg(kani))", "stub Box::write -> ptr::write"],
-        "assumptions": ["run_body in the harness is the loop body of lib::watchexec::error_hook verbatim (the async loop around it is not encoded)"],
+        "bounds": "(a) the REAL async error_hook task (its while-let loop over errors.recv().await) polled by the harness over a model mpsc channel pre-loaded with two runtime errors (NoCommands, ProcessDeadOnArrival) x handler behaviours {ignore both, keep first hook + elevate second, ignore first + elevate second, elevate first} x channel open/closed; (b) the body of error_hook's loop (ErrorHook::new, handler.call, ErrorHook::handle_crit) for one runtime error, 9 RuntimeError variants without io/notify payloads (incl. External) (signal numbers and message bytes symbolic) x handler behaviours {ignore, elevate, critical(Exit), critical(other), move then critical, keep the hook alive}; two successive errors in thorough",
+        "outside": "the senders of the error channel (worker / fs worker / action worker send sites, all async), more than two queued errors, errors arriving while the task is parked (the wake-up is the model channel's),  RuntimeError variants carrying io::Error / notify::Error, the main task's reaction to the returned critical error, a hook kept alive and made critical later (measured OOM)",
+        "trusted": ["Kani 0.68 / CBMC 6.11 / CaDiCaL", "models/tracing no-op macros", "hook watchexec::verif::{hook_new, hook_crit_cell, hook_handle_crit, error_hook_task} (cfg(kani))", "models/tokio-full (mpsc channel, wakers) for the loop harnesses", "stub Box::write -> ptr::write"],
+        "assumptions": ["run_body in the (b) harnesses is the loop body of lib::watchexec::error_hook verbatim", "models/tokio-full mpsc: FIFO, recv is Ready while a message is queued, None once every sender is gone (tokio's documented contract)"],
         "harnesses": [
             {"group": "lib", "name": "c15_elevate_signal", "covers": ["elevate"], "bounds": "elevate(), RuntimeError::UnsupportedSignal(symbolic signal)"},
             {"group": "lib", "name": "c15_elevate_external", "covers": ["elevate"], "bounds": "elevate(), RuntimeError::External(Box<dyn Error>) with a harness-defined payload (added after seed r3-c15-errhook-1 was missed)"},
             {"group": "lib", "name": "c15_critical_exit", "covers": ["critical-exit"], "bounds": "critical(CriticalError::Exit) on InternalSupervisor(3 symbolic bytes)"},
             {"group": "lib", "name": "c15_outstanding_ref", "covers": ["outstanding-ref"], "bounds": "handler keeps the hook alive"},
             {"group": "lib", "name": "c15_ignore_a", "covers": ["ignore"], "mem_gb": 6, "bounds": "handler ignores; 4 variants (path-split)"},
+            {"group": "throttle", "module": "errloop", "name": "c15_loop_keep_first_elevate_second", "covers": ["first hook kept alive, second elevated"], "mem_gb": 4, "bounds": "the REAL error_hook task future polled over a model mpsc channel holding two errors: the handler keeps the first ErrorHook alive (outstanding reference) and elevates the second: both handed over once, in order; the task ends with Elevated carrying the second error"},
+            {"group": "throttle", "module": "errloop", "name": "c15_loop_elevate_first", "covers": ["first elevated, second never handed over"], "mem_gb": 4, "bounds": "real error_hook future, two queued errors, the first is elevated: the task ends at once with Elevated(first); the handler is not called again"},
+            {"group": "throttle", "module": "errloop", "name": "c15_loop_two_ignored_open", "covers": ["two errors ignored, task keeps waiting"], "mem_gb": 4, "bounds": "real error_hook future, two queued errors both ignored, channel still open: both handed over once in order, the task stays pending (Watchexec keeps running)"},
+            {"group": "throttle", "module": "errloop", "name": "c15_loop_two_ignored_closed", "tiers": ("thorough",), "covers": ["two errors ignored, channel closed"], "mem_gb": 4, "bounds": "as above with every sender gone: the task ends Ok"},
+            {"group": "throttle", "module": "errloop", "name": "c15_loop_ignore_first_elevate_second", "tiers": ("thorough",), "covers": ["first ignored, second elevated"], "mem_gb": 4, "bounds": "real error_hook future: first ignored (hook dropped), second elevated"},
             {"group": "lib", "name": "c15_ignore_b", "tiers": ("thorough",), "covers": ["ignore"], "mem_gb": 6, "bounds": "handler ignores; the other 4 variants"},
             {"group": "lib", "name": "c15_elevate_no_commands", "tiers": ("thorough",), "covers": ["elevate"], "bounds": "elevate(), NoCommands"},
             {"group": "lib", "name": "c15_elevate_dead_on_arrival", "tiers": ("thorough",), "covers": ["elevate"], "bounds": "elevate(), ProcessDeadOnArrival"},
@@ -240,6 +248,14 @@ PROPERTIES = {
             {"group": "jobq", "name": "recv_armed_timer_high_passes", "covers": ["scenario ran to its end"], "bounds": "armed timer, high pending: delivered, timer kept"},
             {"group": "jobq", "name": "recv_expired_stop_timer_first", "covers": ["scenario ran to its end"], "bounds": "expired stop timer (deadline == now and < now) with urgent+high+normal queued: forced Stop with the timer's flag first, timer cleared, queues untouched"},
             {"group": "jobq", "name": "recv_expired_restart_timer_first", "covers": ["scenario ran to its end"], "bounds": "expired restart timer: ContinueTryGracefulRestart with the timer's flag first"},
+            {"group": "jobq", "name": "recv_normal_first_of_two", "covers": ["scenario ran to its end"], "bounds": "THROUGH select!: only the normal queue holds (two) controls, no timer: the first is returned, the second stays; select start index solver-chosen"},
+            {"group": "jobq", "name": "recv_normal_fifo_two_recvs", "covers": ["scenario ran to its end"], "bounds": "through select! twice: two normal controls come out in send order"},
+            {"group": "jobq", "name": "recv_empty_is_pending", "covers": ["scenario ran to its end"], "bounds": "through select!: nothing queued, no timer: Pending, nothing invented"},
+            {"group": "jobq", "name": "recv_woken_by_normal_send", "covers": ["scenario ran to its end"], "bounds": "parked in select!, a normal control arrives: waiter woken, the same future yields it"},
+            {"group": "jobq", "name": "recv_urgent_first_after_wait", "covers": ["scenario ran to its end"], "bounds": "parked in select! (no timer); a normal then an urgent control arrive before the re-poll: urgent first, for each of the 3 start indices of the re-poll (path-split)"},
+            {"group": "jobq", "name": "recv_high_first_after_wait", "covers": ["scenario ran to its end"], "bounds": "the same with normal then high: high first, 3 start indices"},
+            {"group": "jobq", "name": "recv_armed_timer_urgent_first_after_wait", "covers": ["scenario ran to its end"], "bounds": "parked in the armed-timer select!; high then urgent arrive: urgent first, 3 start indices x both timer kinds"},
+            {"group": "jobq", "name": "recv_armed_timer_holds_back_normal", "covers": ["scenario ran to its end"], "bounds": "armed (not expired) timer, only a normal control queued: Pending, the normal control is NOT consumed, timer kept; both timer kinds"},
         ],
     },
     "C06": {
@@ -254,6 +270,9 @@ PROPERTIES = {
             {"group": "jobq", "name": "recv_armed_timer_high_passes", "covers": ["scenario ran to its end"], "bounds": "see C10"},
             {"group": "jobq", "name": "recv_expired_stop_timer_first", "covers": ["scenario ran to its end"], "bounds": "see C10"},
             {"group": "jobq", "name": "recv_expired_restart_timer_first", "covers": ["scenario ran to its end"], "bounds": "see C10"},
+            {"group": "jobq", "name": "recv_armed_timer_holds_back_normal", "covers": ["scenario ran to its end"], "bounds": "see C10"},
+            {"group": "jobq", "name": "recv_timer_fires_while_pending", "covers": ["scenario ran to its end"], "bounds": "armed timer, recv parked in select!; the virtual clock reaches deadline-1 (no wake) then the deadline (woken): the SAME future yields the forced control with the timer's flag, clears the timer, leaves the normal control queued; both timer kinds"},
+            {"group": "jobq", "name": "recv_timer_fires_then_new_recv", "covers": ["scenario ran to its end"], "bounds": "the same with a fresh recv call after the wake-up"},
             {"group": "jobq", "name": "api_one_call_done_a", "mem_gb": 6, "covers": ["scenario ran to its end"], "bounds": "includes stop_with_signal / restart_with_signal / try_restart_with_signal: [GracefulStop{signal,grace}, Start] etc. on the normal queue"},
         ],
     },
